@@ -41,7 +41,9 @@ struct Params {
     bool null_empty = false;   // hand a null pointer for an empty source
     bool with_alias = true;
     unsigned mode_mask = 7;    // which of the three explicit modes the mode-taking entry points are called with (bit m = ref::Mode m)
+    unsigned groups = ~0u;     // which groups of entry points to run (G_* below); every source encoding maps all eight bits to some group
 };
+enum { G_IN_MODE = 1, G_DEFAULT = 2, G_CSTR = 4, G_VERBATIM = 8, G_OUT = 16, G_OUT_L1 = 32, G_SLICE = 64, G_CHARS = 128 };
 
 // reference expectation of a call (shared by the judges; Runner caches it per distinct (to,mode,flag,verbatim,src,pre,post))
 inline ref::Expect expectation(const Call &c) {
@@ -138,6 +140,7 @@ struct Runner {
     template <class F> bool call(const char *name, Enc from, Enc to, Mode mode, bool flag, bool verbatim, const Units &src, const Units &pre, const Units &post, F &&f) {
         Call c{name, from, to, mode, flag, verbatim, &src, &pre, &post, nullptr, Outcome()};
         c.e = &expect_for(c);
+        c.o.out.reserve(c.e->out.size() + 8);      // the capture helpers clear() and push_back(): no regrowth while reading the result
         try { f(c.o); }
         catch (const ST::unicode_error &e) { c.o.kind = 1; c.o.what = e.what(); }
         catch (...) { c.o.kind = 2; c.o.what = verif::describe_current_exception(); }
@@ -184,6 +187,7 @@ inline std::string ext_utf8(const Units &src, const Params &p, const Judge &judg
     const std::u8string_view sv8(P8, N);
     const ST::char_buffer cb = s.buf();
 
+    if (p.groups & G_IN_MODE) {
     // --- into ST::string with an explicit mode
     for (int m = 0; m < 3; m++) {
         if (!R.wants(m)) continue;
@@ -207,6 +211,8 @@ inline std::string ext_utf8(const Units &src, const Params &p, const Judge &judg
         XC("from_std_string(std::u8string_view,mode)", ref::UTF8, M, src, ST::string::from_std_string(sv8, v));
         XC("from_utf8(const char8_t*,size,mode)", ref::UTF8, M, src, ST::string::from_utf8(P8, N, v));
     }
+    }
+    if (p.groups & G_DEFAULT) {
     // --- calls that omit the mode (configured default)
     XC("ST::string(const char*,size)", ref::UTF8, DM, src, ST::string(P, N));
     XC("ST::string(const char8_t*,size)", ref::UTF8, DM, src, ST::string(P8, N));
@@ -243,6 +249,8 @@ inline std::string ext_utf8(const Units &src, const Params &p, const Judge &judg
     XC("utf8_to_latin_1(const char*,size)", ref::LATIN1, DM, src, ST::utf8_to_latin_1(P, N));
     XC("utf8_to_latin_1(const char8_t*,size)", ref::LATIN1, DM, src, ST::utf8_to_latin_1(P8, N));
     XC("utf8_to_latin_1(const char_buffer&)", ref::LATIN1, DM, src, ST::utf8_to_latin_1(cb));
+    }
+    if (p.groups & G_CSTR)
     // --- C-string overloads (ST_AUTO_SIZE): they see the text up to its first NUL
     {
         CStr<char> z(src, p.null_empty);
@@ -274,6 +282,7 @@ inline std::string ext_utf8(const Units &src, const Params &p, const Judge &judg
         XC_("operator+=(const char*)", ref::UTF8, DM, true, false, seen, LU, NONE, [&] { ST::string t(L); t += Z; return t; }());
         XC_("operator+=(const char8_t*)", ref::UTF8, DM, true, false, seen, LU, NONE, [&] { ST::string t(L); t += Z8; return t; }());
     }
+    if (p.groups & G_VERBATIM) {
     // --- no validation, no transcoding: the bytes as given
     XSETV("set_validated(const char*,size)", src, t.set_validated(P, N));
     XSETV("set_validated(const char8_t*,size)", src, t.set_validated(P8, N));
@@ -305,9 +314,11 @@ inline std::string ext_utf8(const Units &src, const Params &p, const Judge &judg
         try { pa = std::filesystem::path(su8); auto u = pa.u8string(); pu = units_of(reinterpret_cast<const char *>(u.data()), u.size()); have = true; } catch (...) { }
         if (have) XVERB("from_path(path(std::u8string))", ref::UTF8, pu, ST::string::from_path(pa));
     }
+    }
     // --- out of an ST::string holding these bytes
     const ST::string str = ST::string::from_validated(s.e.data(), N);
     const Mode AV = ref::ASSUME_VALID;
+    if (p.groups & G_OUT) {
     XVERB("to_utf8()", ref::UTF8, src, str.to_utf8());
     XVERB("to_std_string()", ref::UTF8, src, str.to_std_string());
     XVERB("to_std_string(true,true)", ref::UTF8, src, str.to_std_string(true, true));
@@ -337,6 +348,8 @@ inline std::string ext_utf8(const Units &src, const Params &p, const Judge &judg
     XC("to_utf16() then utf16_buffer::view()", ref::UTF16, AV, src, [&] { const ST::utf16_buffer b = str.to_utf16(); return std::u16string(b.view()); }());
     XC("to_utf32() then utf32_buffer::view()", ref::UTF32, AV, src, [&] { const ST::utf32_buffer b = str.to_utf32(); return std::u32string(b.view()); }());
     XC("to_wchar() then wchar_buffer::view()", ref::UTF32, AV, src, [&] { const ST::wchar_buffer b = str.to_wchar(); return std::wstring(b.view()); }());
+    }
+    if (p.groups & G_OUT_L1) {
     for (int fl = 0; fl < 2; fl++) {
         const bool F = fl == 0;
         XC_("to_latin_1(bool)", ref::LATIN1, AV, F, false, src, NONE, NONE, str.to_latin_1(F));
@@ -361,6 +374,8 @@ inline std::string ext_utf8(const Units &src, const Params &p, const Judge &judg
         XVERB("to_path().u8string()", ref::UTF8, src, str.to_path().u8string());
         XVERB("from_path(to_path())", ref::UTF8, src, ST::string::from_path(str.to_path()));
     }
+    }
+    if (p.groups & G_SLICE)
     // --- slices: view(start,length) and sources that alias the target's own storage
     {
         size_t k = p.k > N ? N : p.k; size_t len = p.len > N - k ? N - k : p.len;
@@ -450,6 +465,7 @@ template <class T> inline std::string ext_wide(const Units &src, const Params &p
     const std::basic_string<T> ss(s.e.data(), N);
     const std::basic_string_view<T> sv(P, N);
     const ST::buffer<T> bf = s.buf();
+    if (p.groups & (G_IN_MODE | G_OUT)) {
     for (int m = 0; m < 3; m++) {
         if (!R.wants(m)) continue;
         const Mode M = (Mode)m; const ST::utf_validation_t v = conv::st_mode(M);
@@ -466,6 +482,8 @@ template <class T> inline std::string ext_wide(const Units &src, const Params &p
             XC("from_std_wstring(std::wstring_view,mode)", ref::UTF8, M, src, ST::string::from_std_wstring(sv, v));
         }
     }
+    }
+    if (p.groups & (G_DEFAULT | G_OUT_L1)) {
     // calls that omit the mode
     XC("ST::string(const T*,size)", ref::UTF8, DM, src, ST::string(P, N));
     XC("ST::string(std::basic_string)", ref::UTF8, DM, src, ST::string(ss));
@@ -502,6 +520,8 @@ template <class T> inline std::string ext_wide(const Units &src, const Params &p
         XC("wchar_to_utf32(const wchar_t*,size)", ref::UTF32, DM, src, ST::wchar_to_utf32(P, N));
         XC("wchar_to_utf32(const wchar_buffer&)", ref::UTF32, DM, src, ST::wchar_to_utf32(bf));
     }
+    }
+    if (p.groups & G_VERBATIM) {
     // literal operators called as functions: wide literals are converted with assume_valid, _stbuf keeps the units
     {
         using namespace ST::literals;
@@ -514,6 +534,8 @@ template <class T> inline std::string ext_wide(const Units &src, const Params &p
         const Units sl = slice(src, k, len);
         XVERB("buffer<T>::view(start,length)", FROM, sl, std::basic_string<T>(bf.view(k, len)));
     }
+    }
+    if (p.groups & (G_CSTR | G_SLICE))
     // C-string overloads
     {
         CStr<T> z(src, p.null_empty);
@@ -534,6 +556,7 @@ template <class T> inline std::string ext_wide(const Units &src, const Params &p
         XC_("operator+(const T*,ST::string)", ref::UTF8, DM, true, false, seen, NONE, LU, Z + L);
         XC_("operator+=(const T*)", ref::UTF8, DM, true, false, seen, LU, NONE, [&] { ST::string t(L); t += Z; return t; }());
     }
+    if (p.groups & (G_CHARS | G_VERBATIM))
     // single characters on either side: the character is one UTF-32 value whatever its type (operator+ always validates)
     {
         const Enc FROM = ref::UTF32;
@@ -558,16 +581,20 @@ inline std::string ext_latin1(const Units &src, const Params &p, const Judge &ju
     Src<char> s(src, p.null_empty);
     const size_t N = s.n();
     const ST::char_buffer cb = s.buf();
+    if (p.groups & (G_DEFAULT | G_IN_MODE | G_OUT | G_VERBATIM)) {
     XC("from_latin_1(const char*,size)", ref::UTF8, ref::CHECK, src, ST::string::from_latin_1(s.p(), N));
     XC("from_latin_1(const char_buffer&)", ref::UTF8, ref::CHECK, src, ST::string::from_latin_1(cb));
     XC("latin_1_to_utf8(const char_buffer&)", ref::UTF8, ref::CHECK, src, ST::latin_1_to_utf8(cb));
     XC("latin_1_to_utf16(const char_buffer&)", ref::UTF16, ref::CHECK, src, ST::latin_1_to_utf16(cb));
     XC("latin_1_to_utf32(const char_buffer&)", ref::UTF32, ref::CHECK, src, ST::latin_1_to_utf32(cb));
     XC("latin_1_to_wchar(const char_buffer&)", ref::UTF32, ref::CHECK, src, ST::latin_1_to_wchar(cb));
+    }
+    if (p.groups & (G_CSTR | G_SLICE))
     {
         CStr<char> z(src, p.null_empty);
         XC("from_latin_1(const char*)", ref::UTF8, ref::CHECK, z.seen, ST::string::from_latin_1(z.p()));
     }
+    if (p.groups & (G_CHARS | G_OUT_L1 | G_VERBATIM))
     {   // a char appended or prepended is the Latin-1 character of that value
         Units LU; const ST::string &L = left_operand(R.next(), LU);
         const size_t nch = N < 6 ? N : 6;
